@@ -188,6 +188,9 @@ class Engine(CoreMixin, ExprMixin, CallMixin, LibMixin, StmtMixin, ReMixin):
             if "@" in key:
                 if key not in self.after_sites_seen:
                     raise Unsupported("program point of ensures_local %r not found in the source (no obligation generated)" % key)
+        for label in getattr(con, "snapshots", {}):
+            if "snapshot:" + label not in self.after_sites_seen:
+                raise Unsupported("snapshot site %r not found in the source" % label)
         return self.obligations
 
     def lemma_obligations(self):
